@@ -241,41 +241,48 @@ func runEnumCase(c enumCase) *core.Failure {
 	if d := model.Diff(inRev, model.Observe(qRev)); d != "" && len(q.ColumnNames()) == 1 {
 		return core.Failf("%s: the reversed frame does not show the reversed rows: %s", what, d)
 	}
-	check := func(l model.Leaf) *core.Failure {
-		res := model.Observe(q.Filter(model.BuildClause(model.LeafC(l), in.Kinds())))
-		rows, err := model.Evaluator{F: in}.Filter(model.LeafC(l))
+	checkClause := func(cl model.Clause) *core.Failure {
+		res := model.Observe(q.Filter(model.BuildClause(cl, in.Kinds())))
+		rows, err := model.Evaluator{F: in}.Filter(cl)
 		if err == nil {
-			resRev := model.Observe(qRev.Filter(model.BuildClause(model.LeafC(l), in.Kinds())))
-			rowsRev, _ := model.Evaluator{F: inRev}.Filter(model.LeafC(l))
+			resRev := model.Observe(qRev.Filter(model.BuildClause(cl, in.Kinds())))
+			rowsRev, _ := model.Evaluator{F: inRev}.Filter(cl)
 			if d := model.Diff(inRev.Rows(rowsRev), resRev); d != "" {
-				return core.Failf("%s: Filter %s on the frame with its rows reversed: %s\n want rows %v of %s", what, model.LeafC(l), d, rowsRev, inRev)
+				return core.Failf("%s: Filter %s on the frame with its rows reversed: %s\n want rows %v of %s", what, cl, d, rowsRev, inRev)
 			}
 		}
 		// the same leaf where no row is left to decide: on the frame without rows, and as the last
 		// member of an Or whose earlier members already select every row. Whether the clause is an
 		// error depends on the clause and the column's declaration, never on the rows.
-		empty := q.Slice(0, 0).Filter(model.BuildClause(model.LeafC(l), in.Kinds()))
+		empty := q.Slice(0, 0).Filter(model.BuildClause(cl, in.Kinds()))
 		sat := q.Filter(qframe.Or(qframe.Filter{Column: "e", Comparator: "isnull"}, qframe.Filter{Column: "e", Comparator: "isnotnull"},
-			model.BuildClause(model.LeafC(l), in.Kinds())))
+			model.BuildClause(cl, in.Kinds())))
 		if (empty.Err != nil) != (err != nil) {
-			return core.Failf("%s: Filter %s on the frame without rows: Err=%v, but on the frame with rows the model says error=%v", what, model.LeafC(l), empty.Err, err)
+			return core.Failf("%s: Filter %s on the frame without rows: Err=%v, but on the frame with rows the model says error=%v", what, cl, empty.Err, err)
 		}
 		if (sat.Err != nil) != (err != nil) {
-			return core.Failf("%s: Or(isnull, isnotnull, %s): Err=%v, model says error=%v", what, model.LeafC(l), sat.Err, err)
+			return core.Failf("%s: Or(isnull, isnotnull, %s): Err=%v, model says error=%v", what, cl, sat.Err, err)
 		}
 		if err == nil && (empty.Len() != 0 || sat.Len() != in.N) {
-			return core.Failf("%s: Filter %s: %d rows from the empty frame, %d of %d rows from the saturated Or", what, model.LeafC(l), empty.Len(), sat.Len(), in.N)
+			return core.Failf("%s: Filter %s: %d rows from the empty frame, %d of %d rows from the saturated Or", what, cl, empty.Len(), sat.Len(), in.N)
 		}
 		if err != nil {
 			if !res.Err {
-				return core.Failf("%s: Filter %s must be an error (%v)", what, model.LeafC(l), err)
+				return core.Failf("%s: Filter %s must be an error (%v)", what, cl, err)
 			}
 			return nil
 		}
 		if d := model.Diff(in.Rows(rows), res); d != "" {
-			return core.Failf("%s: Filter %s: %s\n want rows %v", what, model.LeafC(l), d, rows)
+			return core.Failf("%s: Filter %s: %s\n want rows %v", what, cl, d, rows)
 		}
 		return nil
+	}
+	check := func(l model.Leaf) *core.Failure {
+		if f := checkClause(model.LeafC(l)); f != nil {
+			return f
+		}
+		// ... and negated by a Not around it (next to the Inverse flag of the leaf itself)
+		return checkClause(model.Not(model.LeafC(l)))
 	}
 	// constants: every declared value for small lists, boundary ranks for large ones; plus an undeclared one
 	var consts []string
@@ -318,6 +325,30 @@ func runEnumCase(c enumCase) *core.Failure {
 			}
 		}
 	}
+	// two tests of the column in one Or / And (every pair of constants, the undeclared one included): the
+	// members keep their own meaning and their own validation
+	eq := func(op, k string) model.Clause {
+		l := lf("e", op, "string")
+		l.S = k
+		return model.LeafC(l)
+	}
+	pairConsts := consts
+	if len(pairConsts) > 6 {
+		pairConsts = append(append([]string{}, consts[:3]...), consts[len(consts)-3:]...)
+	}
+	for _, k1 := range pairConsts {
+		for _, k2 := range pairConsts {
+			if len(declared) == 0 && (k1 == "undeclared!" || k2 == "undeclared!") {
+				continue
+			}
+			for _, cl := range []model.Clause{model.Or(eq("=", k1), eq("=", k2)), model.And(eq("=", k1), eq("=", k2)), model.Or(eq("=", k1), eq("!=", k2)),
+				model.Or(eq("=", k1), eq("=", k2), eq("=", k1)), model.Not(model.Or(eq("=", k1), eq("=", k2)))} {
+				if f := checkClause(cl); f != nil {
+					return f
+				}
+			}
+		}
+	}
 	// in / like / ilike selecting boundary ranks (bitset words 0..3)
 	var sel []model.Cell
 	src := declared
@@ -344,12 +375,39 @@ func runEnumCase(c enumCase) *core.Failure {
 			if f := check(il); f != nil {
 				return f
 			}
+			for _, l := range []model.Leaf{one, lk, il} {
+				l.Inverse = true
+				if f := check(l); f != nil {
+					return f
+				}
+			}
 		}
 	}
 	all := lf("e", "in", "strings")
 	all.List = sel
 	if f := check(all); f != nil {
 		return f
+	}
+	all.Inverse = true
+	if f := check(all); f != nil {
+		return f
+	}
+	// patterns and in-lists that name no value of the column: no row, and no error either (only "=" and the
+	// ordering comparators validate their constant)
+	for _, l := range []model.Leaf{func() model.Leaf { l := lf("e", "like", "string"); l.S = "no such value"; return l }(),
+		func() model.Leaf { l := lf("e", "ilike", "string"); l.S = "%no such value"; return l }(),
+		func() model.Leaf { l := lf("e", "like", "string"); l.S = "no.such.*"; return l }(),
+		func() model.Leaf {
+			l := lf("e", "in", "strings")
+			l.List = []model.Cell{model.S("no such value"), model.S(data[0])}
+			return l
+		}()} {
+		for _, inv := range []bool{false, true} {
+			l.Inverse = inv
+			if f := check(l); f != nil {
+				return f
+			}
+		}
 	}
 	for _, nl := range []string{"isnull", "isnotnull"} {
 		if f := check(lf("e", nl, "none")); f != nil {
